@@ -300,7 +300,9 @@ impl Engine for WireEngine {
             Profile::C19 => swarm(ctx, PARAM_FAULTS),
             Profile::C18 => swarm(ctx, RESP_DAMAGE),
         };
-        let ncalls = if is_async && faults_on && matches!(self.profile, Profile::C04 | Profile::C09) && ctx.chance(1, 3) {
+        // several calls on one service instance: interleaved by the scheduler (async) or one
+        // after the other (blocking) — state must not carry over between calls
+        let ncalls = if faults_on && matches!(self.profile, Profile::C04 | Profile::C09) && ctx.chance(1, 3) {
             2 + ctx.draw(3) as usize
         } else {
             1
